@@ -22,6 +22,7 @@ EXPLANATION = (
     "branch creates callables or bindings (Lambda, NamedExpr, ...). NOT decided: what whitelisted helpers and field-type "
     "constructors do with hostile arguments (e.g. catastrophic regexes)."
     " Also decided (rules added after the fifth blind round): the call predicate is followed into the matcher methods it calls and the locals it reads (a lazily built name set is a read of the live namespace); a getattr NAME that cannot be traced to a validated source needs the `__` refusal."
+    " Rules added after the sixth blind round: (R9.1 extended) TypeMatcher / TypeMatcherInstance / WrappedRecord call no runtime value held in a local; (R9.3) WHITELIST is complete when WHITELIST_TREE is built."
 )
 RULE_SUMMARY = ("instances: dynamic call sites, getattr sites, store sites, guard/predicate pairs; non-trivial = a dominance or "
                 "provenance question had to be answered for the site")
